@@ -2,6 +2,7 @@ import ModelR.Resample
 import Mathlib.Tactic.Linarith
 import Mathlib.Algebra.Order.BigOperators.Group.List
 import Mathlib.MeasureTheory.Measure.Lebesgue.Basic
+import Mathlib.MeasureTheory.Integral.Bochner.Set
 /-! Helper lemmas for C15 (`stats.resample_orientations`): the linear-scan specification of
 `searchsorted`, numpy's binary search agrees with it on ascending arrays, prefix sums,
 `gather`, the stable argsort. -/
@@ -416,5 +417,30 @@ theorem argsortStable_sorted (f : List ℝ) : (gather f (argsortStable f)).Pairw
   rw [gather_eq_map f _ (perm_index_lt _ (argsortStable_perm f))]
   rw [List.pairwise_map]
   exact (foldl_insertIdx (fun k => f.getD k 0) (List.range f.length) [] Pairwise.nil).2
+
+/-! ### selecting sets are measurable -/
+/-- the set of variates in `[0,1)` selecting position `i` -/
+def selSet (fa : List ℝ) (i : ℕ) : Set ℝ := {u : ℝ | u ∈ Ico (0:ℝ) 1 ∧ searchsortedLeft (cumfrac fa) u = i}
+
+theorem selSet_eq (fa : List ℝ) (hpos : ∀ x ∈ fa, 0 ≤ x) (hsum : fa.sum = 1) (i : ℕ) (hi : i < fa.length) :
+    selSet fa i = Ico (0:ℝ) 1 ∩ {u | (i = 0 ∨ pre fa i < u) ∧ u ≤ pre fa (i + 1)} := by
+  ext u
+  simp only [selSet, mem_ofPred_eq, mem_inter_iff]
+  constructor
+  · rintro ⟨hu, hs⟩; exact ⟨hu, (select_iff fa hpos hsum u i hi).mp hs⟩
+  · rintro ⟨hu, hs⟩; exact ⟨hu, (select_iff fa hpos hsum u i hi).mpr hs⟩
+
+theorem measurableSet_selSet (fa : List ℝ) (hpos : ∀ x ∈ fa, 0 ≤ x) (hsum : fa.sum = 1) (i : ℕ) (hi : i < fa.length) :
+    MeasurableSet (selSet fa i) := by
+  rw [selSet_eq fa hpos hsum i hi]
+  apply MeasurableSet.inter measurableSet_Ico
+  by_cases h0 : i = 0
+  · have : {u : ℝ | (i = 0 ∨ pre fa i < u) ∧ u ≤ pre fa (i + 1)} = Iic (pre fa (i + 1)) := by
+      ext u; simp [h0]
+    rw [this]; exact measurableSet_Iic
+  · have : {u : ℝ | (i = 0 ∨ pre fa i < u) ∧ u ≤ pre fa (i + 1)} = Ioc (pre fa i) (pre fa (i + 1)) := by
+      ext u; simp [h0]
+    rw [this]; exact measurableSet_Ioc
+
 
 end ModelR
